@@ -97,6 +97,29 @@ pub fn generate(thorough: bool, rng: &mut Rng, ops: &mut Vec<String>, stats: &mu
         let _ = i;
         ops.push(format!("c06 rabin {poly:x} {avg} {min} {max} {seed} {}", hex(&data)));
     }
+    // parameter sets `check_rabin_params` must refuse (the iterator validates for every file, also when the stored
+    // configuration bypassed the `config` command): non-power-of-two or zero average, min = 0, min > avg, max < avg, max < min
+    let n_bad = if thorough { 300 } else { 60 };
+    for _ in 0..n_bad {
+        let avg_ok = 1usize << rng.range(0, 14);
+        let (avg, min, max) = match rng.below(7) {
+            0 => (0, 0, rng.range(0, 100) as usize),
+            1 => (avg_ok + 1 + rng.below(avg_ok as u64) as usize, 1, 8 * avg_ok + 8),
+            2 => (avg_ok, 0, 2 * avg_ok),
+            3 => (avg_ok, avg_ok + 1 + rng.below(4096) as usize, 8 * avg_ok + 8192),
+            4 => (avg_ok, 1.max(avg_ok / 2), avg_ok - 1),
+            5 => (avg_ok, avg_ok, rng.below(avg_ok as u64) as usize),
+            _ => (3 * avg_ok, avg_ok, 4 * avg_ok),
+        };
+        if avg.is_power_of_two() && min >= 1 && min <= avg && avg <= max {
+            continue;
+        }
+        stats.hit("rabin.refused-params");
+        let len = rng.below(3 * 4096) as usize;
+        let data = data_kind(rng, len, stats);
+        let seed = rng.below(1 << 32);
+        ops.push(format!("c06 rabin {DEFAULT_POLY:x} {avg} {min} {max} {seed} {}", hex(&data)));
+    }
     // default parameters on multi-MiB inputs (Lean-side cost ≈ 1 µs/byte: one case in quick, three in thorough)
     {
         let (n, lo, hi) = if thorough { (3, 2u64 << 20, 12u64 << 20) } else { (1, 1u64 << 20, 3u64 << 20) };
@@ -315,15 +338,6 @@ pub fn exec(t: &[&str]) -> String {
             ) else {
                 return "bad-op".into();
             };
-            if min == 0 {
-                // the iterator yields empty chunks forever; observed with a step bound
-                let cfg = config(Chunker::Rabin, poly, avg, min, max);
-                return match run_chunker(&cfg, &data, seed) {
-                    Err(e) if e.contains("nonterminating") => "nonterminating".into(),
-                    Err(e) => e,
-                    Ok(c) => lens(&c),
-                };
-            }
             let cfg = config(Chunker::Rabin, poly, avg, min, max);
             match run_chunker(&cfg, &data, seed) {
                 Ok(chunks) => {
